@@ -19,6 +19,9 @@ HEADER = r"""
 #include <complex.h>
 #include <pthread.h>
 #include <emmintrin.h>
+#ifdef __AVX__
+#include <immintrin.h>
+#endif
 #define NOINL __attribute__((noinline))
 static __thread uint64_t dg = 1469598103934665603ULL;
 static inline __attribute__((always_inline, no_instrument_function)) void mixb(const void *p, size_t n)
@@ -58,6 +61,8 @@ TYPES = {
     "cflt": ("cflt", "((float)(({s}) % 37u) + (float)(({s}) % 19u) * 0.25f * I)", "{{ float _r = crealf({v}), _i = cimagf({v}); MIXV(_r); MIXV(_i); }}"),
     "m128d": ("__m128d", "_mm_set_pd((double)(({s}) % 1009u) + 0.5, (double)(({s}) % 499u) * 3.0)",
               "{{ double _d[2]; _mm_storeu_pd(_d, {v}); MIXV(_d[0]); MIXV(_d[1]); }}"),
+    "m256d": ("__m256d", "_mm256_set_pd((double)(({s}) % 1013u) + 0.25, (double)(({s}) % 509u) * 5.0, (double)(({s}) % 251u) - 7.0, (double)(({s}) % 127u) * 0.125)",
+              "{{ double _d[4]; _mm256_storeu_pd(_d, {v}); MIXV(_d[0]); MIXV(_d[1]); MIXV(_d[2]); MIXV(_d[3]); }}"),
     "f128": ("__float128", "((__float128)(({s}) % 100003u) / 3 + 1)", "mixb(&({v}), 16);"),
     "void": ("void", None, None),
 }
@@ -70,6 +75,7 @@ CLASSES = {
     "struct-mem": ["sbig", "smix"],
     "complex": ["cdbl", "cflt"],
     "vector": ["m128d", "f128"],
+    "vector256": ["m256d"],          # only in programs built with -mavx2 (gen_program(avx=True))
 }
 
 
@@ -88,12 +94,16 @@ class Fn:
         self.nested = False       # has a GNU C nested function (static chain in %r10)
 
 
-def gen_program(rng, nfn=10, threads=1, classes=None, libcalls=True, stress_regs=False):
+def gen_program(rng, nfn=10, threads=1, classes=None, libcalls=True, stress_regs=False, avx=False):
     """-> (source text, description dict)"""
     fns = [Fn(i) for i in range(nfn)]
     pool = []
     for c in (classes or CLASSES):
+        if c == "vector256" and not avx:
+            continue
         pool += CLASSES[c]
+    if avx and "m256d" not in pool:
+        pool += ["m256d", "m256d"]
     for f in fns:
         f.ret = rng.choice(pool + ["void", "i32", "f64"])
         na = rng.choice([0, 1, 2, 3, 3, 5, 7, 9, 12])
